@@ -265,6 +265,9 @@ def run(prog: Program) -> Results:
                     f"given the same argument inserts the very same mutable object, so an edit below one of those bindings changes "
                     f"bindings it does not address")
     identity_matching(prog, res, "R-C04-7")
+    from sa.rules import poslint
+    poslint.check(prog, res, "R-C04-9")
+    filter_in_search(prog, res, "R-C04-10")
     search_then_insert(prog, res, "R-C04-8")
     from sa.rules import merge
     merge.check(prog, res, "R-C04-5", "R-C04-6")
@@ -358,3 +361,28 @@ def search_then_insert(prog: Program, res: Results, rid: str) -> None:
                         f"{f.key}: `{x}` is looked up in {sorted(searched)[:2]} but, when missing, the new object is appended to `{t}`: "
                         f"the text may still render through an order list, but the next set/rm along the same path does not find it "
                         f"(duplicate line / KeyError)")
+
+
+def filter_in_search(prog: Program, res: Results, rid: str) -> None:
+    """names are not unique in a binding list (`a = { … }; a.y = 2;` parses into an explicit and an attrpath-derived `a`): a
+    lookup that wants the attrpath-derived one must say so in the search; testing `.nested` on the *first* match by name and
+    giving up misses the second"""
+    r = res.rule(rid, "the `nested` filter is part of the search: wherever the `.nested` flag of a binding found by "
+                 "_find_binding/_find_named_binding is tested, the search itself was given `nested=` — a first-match-by-name "
+                 "followed by a flag test overlooks a later binding of the same name that has the wanted flag", floor=1)
+    for f in prog.all_functions():
+        found = {}
+        for d in walk_no_nested(f.node):
+            if isinstance(d, ast.Assign) and isinstance(d.targets[0], ast.Name) and isinstance(d.value, ast.Call) \
+                    and callee(d.value) in ("_find_named_binding", "_find_binding"):
+                found.setdefault(d.targets[0].id, []).append(d)
+        for n in walk_no_nested(f.node):
+            if isinstance(n, ast.Attribute) and n.attr == "nested" and isinstance(n.ctx, ast.Load) and isinstance(n.value, ast.Name) and n.value.id in found:
+                r.instances += 1
+                unfiltered = [d for d in found[n.value.id] if not any(k.arg == "nested" for k in d.value.keywords)]
+                r.ob(not unfiltered, {"site": f.key, "flag_test": norm(n), "searches": [norm(d.value)[:60] for d in found[n.value.id]]})
+                for d in unfiltered:
+                    res.add(rid, (f.key, "nested flag tested after a first match by name"), f.loc(n),
+                            f"{f.key}: `{norm(d)[:70]}` takes the first binding with that name and `{norm(n)}` is tested afterwards: for "
+                            f"`users = {{ … }}; users.defaultUserShell = \"zsh\";` the explicit binding is found, the attrpath family is "
+                            f"overlooked, and `set users.defaultUserShell` writes into the neighbouring explicit set")
